@@ -241,6 +241,14 @@ func (g *CallGraph) resolveInvoke(com *ssa.CallCommon) []*ssa.Function {
 		if !com.Method.Exported() && com.Method.Pkg() != nil && m.Package() != nil && com.Method.Pkg() != m.Package().Pkg {
 			continue
 		}
+		// a non-generic receiver type can be tested exactly against a non-generic interface
+		if it, ok := com.Value.Type().Underlying().(*types.Interface); ok {
+			if rn := namedOf(ms.Recv().Type()); rn != nil && rn.TypeParams().Len() == 0 && !mentionsTypeParam(it) {
+				if !types.Implements(rn, it) && !types.Implements(types.NewPointer(rn), it) {
+					continue
+				}
+			}
+		}
 		out = append(out, m)
 	}
 	return out
@@ -481,4 +489,47 @@ func sigMatches(fn *ssa.Function, sig *types.Signature) bool {
 		}
 	}
 	return true
+}
+
+// mentionsTypeParam: the interface's method signatures mention type parameters
+// (interfaces inside generic bodies); exact implementation tests do not apply.
+func mentionsTypeParam(it *types.Interface) bool {
+	var has func(t types.Type, d int) bool
+	has = func(t types.Type, d int) bool {
+		if d > 6 || t == nil {
+			return false
+		}
+		switch x := types.Unalias(t).(type) {
+		case *types.TypeParam:
+			return true
+		case *types.Pointer:
+			return has(x.Elem(), d+1)
+		case *types.Slice:
+			return has(x.Elem(), d+1)
+		case *types.Named:
+			for i := 0; i < x.TypeArgs().Len(); i++ {
+				if has(x.TypeArgs().At(i), d+1) {
+					return true
+				}
+			}
+		case *types.Signature:
+			for i := 0; i < x.Params().Len(); i++ {
+				if has(x.Params().At(i).Type(), d+1) {
+					return true
+				}
+			}
+			for i := 0; i < x.Results().Len(); i++ {
+				if has(x.Results().At(i).Type(), d+1) {
+					return true
+				}
+			}
+		}
+		return false
+	}
+	for i := 0; i < it.NumMethods(); i++ {
+		if has(it.Method(i).Type(), 0) {
+			return true
+		}
+	}
+	return false
 }
